@@ -1,2 +1,3 @@
 pub mod layout;
 pub mod shamir_big;
+pub mod ggm_ref;
